@@ -2,6 +2,7 @@
 // Honest scope: the configuration half (where the bytes go, how they come back, encoding, BOM, formatting, reader, chunk
 // size) is what the simulator owns; the value half is seeded sampling.
 #include "scen_util.h"
+#include "zoo_gen.h"
 
 namespace hz {
 
@@ -91,6 +92,58 @@ Outcome RunC01(RunCtx& ctx)
 
 	// KF-JSON-BOMLESS-DETECT: RapidJSON recognises BOM-less UTF-16/32 only from the first four bytes of two ASCII characters
 	if (archive == A_JSON && oc.stream && !bom && enc != 0 && avoid) g.forceContainerRoot = true;
+	// std-adapter leg (1 run in 4): the same pipeline with a struct holding every std container/optional/smart pointer/tuple/pair/
+	// chrono/enum/base-class adapter (drawn last in the cfg lane so that older replay files keep their meaning)
+	if (s.chance(sim::L_CFG, 1, 4))
+	{
+		ZooGenCfg zg;
+		zg.archive = archive;
+		zg.allowEmpty = !(archive == A_CSV && avoid);     // KF-CSV-EMPTY-TABLE
+		Zoo z;
+		GenZoo(s, sim::L_DOC, z, zg);
+		if (archive == A_CSV && avoid && z.rows.empty()) z.rows.emplace_back();
+		ctx.note("archive=" + an + " model=zoo out=" + oc.str() + " options: " + OptStr(o));
+		ctx.count("archive." + an);
+		ctx.count("model.zoo");
+		Outcome zout;
+		zout.cfgKey = an + "|zoo|" + oc.str() + "|" + EncName(enc) + (bom ? "b" : "");
+		const std::string zt = "archive=" + an + " model=zoo out=" + (oc.stream ? "stream" : "mem") + " enc=" + EncName(enc) + (bom ? " bom=1" : " bom=0") + (o.formatOptions.enableFormat ? " format=1" : " format=0");
+		std::string zbytes;
+		sim::steps_begin(kBudget);
+		CallResult zs = SaveZooWith(ops, z, zbytes, o, oc);
+		sim::steps_end();
+		if (!zs.isStd) return Violation("WRONG_EXCEPTION", zt + " dir=save", "non-std exception from SaveObject");
+		if (!zs.ok) { ctx.note("save failed: " + zs.cat + " " + zs.what); ctx.count("save_failed"); return zout; }
+		InCfg zic;
+		const bool zmem = !oc.stream || archive == A_MSGPACK || (enc == 0 && !bom);
+		if (!zmem || s.chance(sim::L_IO, 1, 2)) { zic = DrawStreamCfg(s, sim::L_IO); zic.seekable = true; }   // map loading needs backward seeks
+		ctx.note("load via " + zic.str());
+		Zoo fresh;
+		fresh.skipIntKeyMaps = z.skipIntKeyMaps;
+		sim::steps_begin(3000ull * (zbytes.size() + 4096));
+		sim::stream_call_budget(64 * (zbytes.size() + 4096) * 8);
+		const CallResult zr = LoadZooWith(ops, fresh, zbytes, o, zic);
+		sim::steps_end();
+		zout.nontrivial = oc.stream || zic.stream;
+		const std::string ztl = zt + " in=" + (zic.stream ? "stream:file" : "mem") + " dir=load";
+		if (!zr.isStd) return Violation("WRONG_EXCEPTION", ztl, "non-std exception from LoadObject");
+		if (!zr.ok) return Violation("WRONG_EXCEPTION", ztl + " what=unloadable exc=" + zr.cat, "the saved document cannot be loaded: " + zr.cat + " (" + zr.what + ")");
+		const bool csv = archive == A_CSV;
+		const std::string diff = ZooDiff(ZooFields(z, csv), ZooFields(fresh, csv));
+		if (!diff.empty()) return Violation("WRONG_VALUE", ztl + " what=value member=" + diff.substr(0, diff.find(':')), "loaded value differs from the saved one: " + diff);
+		// fixed point
+		std::string zbytes2;
+		CallResult zs2 = SaveZooWith(ops, fresh, zbytes2, o, oc);
+		if (!zs2.ok) return Violation("WRONG_EXCEPTION", zt + " dir=resave exc=" + zs2.cat, "saving the loaded value failed: " + zs2.what);
+		Zoo fresh2;
+		fresh2.skipIntKeyMaps = z.skipIntKeyMaps;
+		const CallResult zr2 = LoadZooWith(ops, fresh2, zbytes2, o, zic);
+		if (!zr2.ok) return Violation("WRONG_EXCEPTION", ztl + " what=fixedpoint exc=" + zr2.cat, "load-save-load: second load failed: " + zr2.what);
+		const std::string diff2 = ZooDiff(ZooFields(fresh, csv), ZooFields(fresh2, csv));
+		if (!diff2.empty()) return Violation("WRONG_VALUE", ztl + " what=fixedpoint member=" + diff2.substr(0, diff2.find(':')), "load-save-load is not a fixed point: " + diff2);
+		return zout;
+	}
+
 	DynNode doc = GenDocument(s, sim::L_DOC, g);
 	ctx.note("archive=" + an + " out=" + oc.str() + " options: " + OptStr(o));
 	if (ctx.describe) ctx.note("value: " + Pretty(doc));
